@@ -275,10 +275,15 @@ def raw_truth_rows(qdiff, env, base, text, R, raw_R, argnames):
                     except ValueError: return False
                 return x != 0
             out.extend([r] * sum(1 for item in v if sq_true(item.id))); continue
-        if st != 'str': return None
         try: v = it.ev(node, e)
         except Exception: return None
-        if v is None: continue
+        if v is None or v is qdiff.U: continue
+        if isinstance(v, (set, frozenset, list, qdiff.GroupConcat)): return None
+        if not isinstance(v, str):
+            if isinstance(v, (int, float)) or type(v).__name__ == 'Decimal':
+                if v != 0: out.append(r)
+                continue
+            return None
         m = re.match(r'^\s*[+-]?(\d+\.?\d*(?:[eE][+-]?\d+)?|\.\d+(?:[eE][+-]?\d+)?)', v)
         if m:
             try:
@@ -553,6 +558,8 @@ def make_pred_text(base, rng, gen, schema):
     gen.reset(); gen.params = dict(base.params)
     gen.p_param = 0.0
     saved_ex = gen.exclude
+    import re as _re
+    gen.reserved = set(_re.findall(r'for (\w+) in', base.src))     # nested variables of the predicate must not shadow the base query's
     gen.exclude = set(gen.exclude) | {'div', 'strip0', 'slice', 'fstring', 'ifexp'}
     try:
         if base.kind == 'entity':
@@ -572,6 +579,7 @@ def make_pred_text(base, rng, gen, schema):
     finally:
         gen.p_param = 0.3
         gen.exclude = saved_ex
+        gen.reserved = ()
 
 
 def check_filter(mon, base, form, chain0, R, raw_R, rng, gen, schema, nt):
